@@ -16,6 +16,24 @@ TRUST = (
 
 # property id -> (level, technique, text, note, design section)
 CHECKS = {
+    "C02": (
+        "exploration",
+        "exhaustive action-word trees over corner alphabets from reset keys for all 19 built-in environments x configurations x wrapper stacks; pure-Python membership/typing predicate; bitwise purity differential",
+        "For every built-in environment (5 classic control, 11 MuJoCo, 3 Unitree G1), documented constructor configurations and wrapper stacks: the complete tree of action sequences over the corner alphabet "
+        "to a depth, long scripted-policy runs for classic control, abstract shape/dtype evaluation of every configuration, and a three-way bitwise purity comparison (re-run after dropping caches, fresh process); "
+        "observations, sampled actions, rewards and flags judged by a numpy predicate written from the statement (never space.contains).",
+        TRUST,
+        "5/C02",
+    ),
+    "C17": (
+        "exploration",
+        "grid enumeration of classic-control state spaces and depth-3 corner-action trees of the 11 MuJoCo environments; differential oracle = Gymnasium 1.3.0's own reference implementations (reset, semantic-injection and transition layers)",
+        "Classic control: vector fields, state limits, rewards incl. goal-entering transitions, termination predicates and reset boxes on full grids against gymnasium's classes, CartPole+Euler trajectories for all action sequences. "
+        "MuJoCo: for each environment and documented option, reset states of K and all corner-action sequences to depth 3 are compared with gymnasium v5 built from lerax's XML in three layers (reset observation, gymnasium's own "
+        "step() with lerax's post-step physics injected, and full step-vs-step from reset/depth-1 states).",
+        TRUST + " MJX-vs-MuJoCo-C steps that change the active constraint set are skipped and counted.",
+        "5/C17",
+    ),
     "C11": (
         "exploration",
         "exhaustive configuration grid (algorithm x environment x hyper-parameters x key x observer subset) with a bitwise differential oracle across repeated, cross-process and observer-free runs",
